@@ -36,12 +36,11 @@ h_update(void)
 		spec_drbg_update(&S, data, datalen);
 		__CPROVER_assert(g_spec_k == g_hm.n, "SP800-90A lockstep: same number of HMAC computations");
 		DRBG_SAME_KV(S);
-		VCOVER(datalen == 0);
 		VCOVER(datalen == 48);
 	}
-	VCOVER(datalen == 0 && data == NULL);
+	/* markers are kept few: each one costs a SAT iteration of its own */
+	VCOVER(datalen == 0 && data == NULL && hm_base == hm_n0);
 	VCOVER(datalen == HM_DMAX && hm_base == hm_n0 + 2);
-	VCOVER(datalen == 32 && hm_base + 1 == hm_n0);
-	VCOVER(datalen == 1 && hm_base == hm_n0 + 5);
+	VCOVER(datalen == 1 && hm_base + 1 == hm_n0);
 	free(data0);
 }
